@@ -33,7 +33,7 @@ ASSUMPTIONS = [
     "explicit, documented refusals are accepted outcomes: Expectation on density matrices (emu-sv asserts 'Only expectation values of StateVectors')",
 ]
 CHUNK = 1
-PATHS = ["sv", "sv_lindblad", "sv_spam", "mps", "dmrg", "mps_noisy", "mps_spam"]
+PATHS = ["sv", "sv_slm", "sv_lindblad", "sv_spam", "mps", "mps_slm", "dmrg", "mps_noisy", "mps_spam"]
 
 
 def _specifiers():
@@ -112,6 +112,8 @@ def run_case(case):
     label = f"pulser-core {case['version']} path={path} observable={oname}"
     n = 2
     spec = {"coords": kit.SHAPES["pair"], "device": "mock", "basis": "rydberg", "pulses": [{"amp": ["const", 40, 5.0], "det": ["const", 40, 1.0], "phase": 0.2}]}
+    if path.endswith("_slm"):
+        spec["slm"] = [1]  # masked atom with index >= 1: the trajectory's stacked (k, N, N) interaction matrix gets its rows / columns zeroed
     seq = kit.build_sequence(spec)
     ev = [0.5, 1.0]
     noise = {"sv_lindblad": dict(relaxation_rate=0.5), "mps_noisy": dict(dephasing_rate=0.5), "sv_spam": dict(state_prep_error=0.3, p_false_pos=0.1, p_false_neg=0.1), "mps_spam": dict(state_prep_error=0.3, p_false_pos=0.1, p_false_neg=0.1)}.get(path)
@@ -158,7 +160,10 @@ def run_case(case):
     if "n_trajectories" in kw:
         from pulser.backend.observable import AggregationMethod
 
-        skipped_by_pulser = getattr(ob, "default_aggregation_method", None) in (AggregationMethod.SKIP, AggregationMethod.SKIP_WARN)
+        # only Pulser's own observable classes may declare themselves not aggregatable; an observable class defined by the emulators
+        # (EntanglementEntropy: a real scalar per time) has to come out of a multi-trajectory run
+        own = type(ob).__module__.startswith(("emu_mps", "emu_sv", "emu_base"))
+        skipped_by_pulser = (not own) and getattr(ob, "default_aggregation_method", None) in (AggregationMethod.SKIP, AggregationMethod.SKIP_WARN)
     if skipped_by_pulser and tag not in res.get_result_tags():
         # Pulser's Results.aggregate drops observables whose declared aggregation method is SKIP / SKIP_WARN (e.g. variance, state)
         return result(True, outcome=["aggregate-skips", oname], nontrivial=False)
